@@ -228,16 +228,23 @@ class World(BaseWorld):
                                 'n': ro.choice(NSPEC), 'with_k': ro.random() < 0.5, 'kgrid': gen_kgrid(ro),
                                 # the k array has its own length: usually that of omega, sometimes the grid's while omega's is wrong
                                 'kn': ro.choice(['same', 'same', 'same', 'N', 'N', 'N-1']),
-                                'kcontainer': ro.choice(['list', 'ndarray', 'ndarray'])})
+                                'kcontainer': ro.choice(['list', 'ndarray', 'ndarray']),
+                                # the same omega values as another live table, but its own k information
+                                'clone_of': ro.randrange(3) if ro.random() < 0.25 else None})
                     last_fa = ops[-1]['idx']
+                    if ops[-1]['clone_of'] is not None and ops[-1]['clone_of'] != ops[-1]['idx'] and ro.random() < 0.7:
+                        # two table objects with the same values in one System: the original on the first pairs, the clone on the last
+                        ops.append({'op': 'build', 'rank': ro.choice([2, 2, 3]), 'src': 'array', 'name': NAMES[0], 'idx': ops[-1]['clone_of'],
+                                    'where': ro.choice(['all', 'ends', 'cross']), 'reuse': False, 'second': True, 'idx2': ops[-1]['idx'], 'pidx': [0]})
                 elif k == 'fa_mutate':
                     ops.append({'op': 'fa_mutate', 'idx': pick_fa(), 'which': ro.choice(['omega', 'omega', 'k']),
                                 'how': ro.choice(['scale', 'zero', 'reverse', 'one'])})
                 elif k == 'fa_calc':
                     ops.append({'op': 'fa_calc', 'idx': pick_fa()})
                 elif k == 'build':
-                    ops.append({'op': 'build', 'rank': ro.choice([1, 1, 2]), 'src': ro.choice(['file', 'file', 'array']), 'name': pick_file(),
-                                'idx': pick_fa(), 'where': ro.choice(['AA', 'all', 'AB']), 'reuse': ro.random() < 0.5})
+                    ops.append({'op': 'build', 'rank': ro.choice([1, 1, 2, 2, 3, 4]), 'src': ro.choice(['file', 'file', 'array']), 'name': pick_file(),
+                                'idx': pick_fa(), 'where': ro.choice(['AA', 'all', 'AB', 'cross', 'ends', 'rand', 'rand']), 'reuse': ro.random() < 0.5,
+                                'second': ro.random() < 0.4, 'idx2': ro.randrange(3), 'pidx': [ro.randrange(10) for _ in range(ro.randrange(1, 3))]})
         faulty = any(o['op'] in ('arm_eio', 'arm_swap') or (o['op'] == 'write' and o['fault'] != 'clean') for o in ops)
         return {'config': {}, 'ops': ops, 'batch': 'fault_injecting' if faulty else 'fault_free'}
 
@@ -446,6 +453,11 @@ class World(BaseWorld):
         N = len(k)
         m = resolve_n(op['n'], N)
         vals = omega_vals(m, rs)
+        src_e = fa.get(op.get('clone_of')) if op.get('clone_of') is not None else None
+        if src_e is not None and len(src_e['omega0']) > 0:
+            vals = np.array(src_e['omega0'], dtype=float, copy=True)
+            m = len(vals)
+            ctx.probe('fa_same_values_as_another_table')
         base = None
         if op['container'] == 'list':
             oc = [float(x) for x in vals]
@@ -556,7 +568,7 @@ class World(BaseWorld):
     # ---- build a System around the tabulated omega, create the PRISM object and evaluate it once
     def op_build(self, pp, op, step, disk, ffobj, fa, dom, k, handles, ctx):
         rank = op['rank']
-        types = ['A'] if rank == 1 else ['A', 'B']
+        types = ['A', 'B', 'C', 'D'][:rank]
         N = len(k)
         if N < 4:
             return
@@ -578,11 +590,18 @@ class World(BaseWorld):
                 return
             src = e['obj']
             exp = self.expect_array(e, k, ctx)
-        if exp[0] == 'unjudged':
+        # a second, different table object for the pair that is evaluated last (e.g. same values, other k information)
+        src2 = exp2 = None
+        e2 = fa.get(op.get('idx2', -1))
+        if rank >= 2 and op.get('second') and e2 is not None and e2['obj'] is not src:
+            src2, exp2 = e2['obj'], self.expect_array(e2, k, ctx)
+            ctx.probe('build_with_two_table_objects')
+        if exp[0] == 'unjudged' or (exp2 is not None and exp2[0] == 'unjudged'):
             ctx.probe('unjudged_threshold')
             disk.eio.clear()
             return
-        rho = {'A': 0.1, 'B': 0.05}
+        rho = {'A': 0.1, 'B': 0.05, 'C': 0.02, 'D': 0.04}
+        allpairs = [(a, b) for i, a in enumerate(types) for b in types[i:]]
         with warnings.catch_warnings():
             warnings.simplefilter('ignore')
             s = pp.System(types, kT=1.0)
@@ -592,22 +611,29 @@ class World(BaseWorld):
                 s.diameter[t] = 1.0
             s.potential[types, types] = pp.potential.HardSphere()
             s.closure[types, types] = pp.closure.PercusYevick()
-            tab = []
-            if rank == 1:
-                s.omega['A', 'A'] = src
+            for (a, b) in allpairs:
+                s.omega[a, b] = pp.omega.SingleSite() if a == b else pp.omega.NoIntra()
+            w = op['where']
+            if rank == 1 or w == 'AA':
                 tab = [('A', 'A')]
+            elif w == 'all':
+                tab = list(allpairs)
+            elif w == 'AB':
+                tab = [('A', 'B')]
+            elif w == 'cross':
+                tab = [(a, b) for (a, b) in allpairs if a != b]
+            elif w == 'rand':
+                tab = sorted({allpairs[i % len(allpairs)] for i in op.get('pidx', [0])}, key=allpairs.index)
             else:
-                s.omega['A', 'A'] = pp.omega.SingleSite()
-                s.omega['B', 'B'] = pp.omega.SingleSite()
-                s.omega['A', 'B'] = pp.omega.NoIntra()
-                if op['where'] == 'all':
-                    tab = [('A', 'A'), ('A', 'B'), ('B', 'B')]
-                elif op['where'] == 'AB':
-                    tab = [('A', 'B')]
-                else:
-                    tab = [('A', 'A')]
-                for (a, b) in tab:
-                    s.omega[a, b] = src
+                tab = [allpairs[0], allpairs[-1]]
+            srcs = {}
+            for n_, (a, b) in enumerate(tab):
+                use2 = src2 is not None and n_ == len(tab) - 1 and len(tab) > 1
+                s.omega[a, b] = src2 if use2 else src
+                srcs[(a, b)] = exp2 if use2 else exp
+            bad = [v for v in srcs.values() if v[0] == 'raise']
+            if bad:
+                exp = bad[0]
         fired0, swaps0 = disk.eio_fired, disk.swaps_fired
         P = None
         exc = None
@@ -645,10 +671,13 @@ class World(BaseWorld):
         om = np.asarray(P.omega.data, dtype=float)
         if om.shape != (N, rank, rank):
             raise Violation('prism_omega_shape', 'createPRISM', {'shape': list(om.shape)}, step)
-        site = {('A', 'A'): rho['A'], ('B', 'B'): rho['B'], ('A', 'B'): rho['A'] + rho['B']}
-        idx = {'A': 0, 'B': 1}
-        for (a, b) in tab:
-            want = exp[1] * site[(a, b)]
+        idx = {t: i for i, t in enumerate(types)}
+        for (a, b) in allpairs:
+            site_ab = rho[a] if a == b else rho[a] + rho[b]
+            if (a, b) in srcs:
+                want = srcs[(a, b)][1] * site_ab
+            else:
+                want = (np.ones(N) if a == b else np.zeros(N)) * site_ab        # SingleSite / NoIntra
             for (i, j) in ((idx[a], idx[b]), (idx[b], idx[a])):
                 got = om[:, i, j]
                 both_nan = np.isnan(got) & np.isnan(want)
@@ -701,7 +730,7 @@ class World(BaseWorld):
                 'eio_mid_read', 'replaced_during_evaluation', 'single_row_two_col', 'fromfile_object_reused', 'build_with_reused_fromfile', 'onecol_verbatim',
                 'twocol_verbatim', 'array_verbatim_after_caller_mutation', 'caller_array_mutated_k', 'domain_edited_in_place',
                 'domain_via_dk', 'build_ok', 'build_rejected_at_createPRISM', 'build_rejected_at_cost', 'several_prism_objects_alive',
-                'fa_view', 'fa_list', 'fa_ndarray', 'file_rejected', 'array_rejected', 'fa_k_and_omega_lengths_differ', 'kcol_nonfinite']
+                'fa_view', 'fa_list', 'fa_ndarray', 'file_rejected', 'array_rejected', 'fa_k_and_omega_lengths_differ', 'kcol_nonfinite', 'build_with_two_table_objects', 'fa_same_values_as_another_table']
 
     def rule(self):
         return ('Each run = one seed -> 1-4 episodes (a Domain change followed by 2-7 ops on that grid) over {set/replace Domain (length 2..100, dr or dk), edit Domain in place, write file (1|2 columns; '
@@ -710,7 +739,7 @@ class World(BaseWorld):
                 'prefix (row boundary | mid row | mid number | inside last number | uniform), lost, empty, missing, duplicated, stale tail}, '
                 'delete, arm EIO after a fraction of the characters, arm a replacement of the file right after its next open (atomic rename: the open handle keeps the old content), FromFile.calculate (fresh or re-used object), FromArray from '
                 'list|tuple|ndarray|strided view with/without k, in-place mutation of the caller\'s omega/k arrays, FromArray.calculate, build '
-                'rank-1/2 System -> createPRISM -> cost}. Oracle: independent tokenizer of the durable bytes + allclose rule -> values bit-for-bit, '
+                'rank-1..4 System (tabulated omega on one pair, the cross pairs, the first and last pair or all pairs; optionally a second table object on the last pair) -> createPRISM -> cost}. Oracle: independent tokenizer of the durable bytes + allclose rule -> values bit-for-bit, '
                 'or must-raise; one-column wrong length may pass calculate but must raise by createPRISM/first cost; cases within 10% of the '
                 'allclose threshold unjudged. Non-trivial: at least one mismatch was rejected or one verbatim read followed a caller mutation. '
                 'Distinct: run digests.')
